@@ -45,6 +45,10 @@ CONSTANTS
   Regen,                \* TRUE: while no injector exists the environment may replace a function's code (JIT output
                         \* regenerated, a plugin unloaded and loaded again at the same address); what a lifetime restores is
                         \* what IT found, not what an earlier lifetime found
+  RestoreMayFail,       \* TRUE: the page of a patched function may refuse to become writable again when the patch is to be
+                        \* undone (environment); the guard's destructor panics, nothing is restored or unmapped by it
+  LockByHand,           \* deviation: the lock is released by a statement at the end of the destructor instead of by the
+                        \* field's own drop, so a destructor that unwinds keeps it
   ForeignReuse,         \* TRUE: the rest of the process may take over an address the library has given back (a released
                         \* trampoline page) and keep its own memory there
   AllocAt,              \* "hint" (the kernel never places a mapping over existing memory) | "fixed" (deviation: the
@@ -122,7 +126,7 @@ Resolve(f) ==
 -----------------------------------------------------------------------------
 Init ==
   /\ lock = Free /\ poisoned = FALSE
-  /\ th = [t \in Threads |-> [pc |-> "idle", kind |-> "none", panicking |-> FALSE, panics |-> 0, lives |-> 0]]
+  /\ th = [t \in Threads |-> [pc |-> "idle", kind |-> "none", panicking |-> FALSE, panics |-> 0, lives |-> 0, dropfail |-> FALSE]]
   /\ inj = [t \in Threads |-> [guards |-> <<>>, verifiers |-> <<>>]]
   /\ cur = [t \in Threads |-> NoCtx]
   /\ dropst = [t \in Threads |-> [restored |-> {}, unmapped |-> {}]]
@@ -139,7 +143,7 @@ Init ==
 (* lock *)
 Begin(t, k) ==
   /\ th[t].pc = "idle"
-  /\ th' = [th EXCEPT ![t].pc = "waiting", ![t].kind = k, ![t].panicking = FALSE, ![t].panics = 0]
+  /\ th' = [th EXCEPT ![t].pc = "waiting", ![t].kind = k, ![t].panicking = FALSE, ![t].panics = 0, ![t].dropfail = FALSE]
   /\ UNCHANGED <<lock, poisoned, inj, cur, dropst, code, orig, tramp, rw, dirty, ctr, aborted, fault, inflight>>
 
 Acquire(t) ==
@@ -389,6 +393,17 @@ Restore(t, i) ==
   /\ dropst' = [dropst EXCEPT ![t].restored = @ \cup {i}]
   /\ UNCHANGED <<lock, poisoned, th, inj, cur, orig, tramp, rw, ctr, aborted, inflight>>
 
+\* environment fault at the scope exit: restoring guard i fails (mprotect refused) -- a panic raised inside the
+\* injector's destructor; the guard's trampoline is never released (orphan), the function keeps its patch
+RestoreFails(t, i) ==
+  /\ RestoreMayFail /\ DropReady(t) /\ CanRestore(t, i)
+  /\ dropst' = [dropst EXCEPT ![t].restored = @ \cup {i}, ![t].unmapped = @ \cup {i}]
+  /\ tramp' = [tramp EXCEPT ![Guards(t)[i].tid].orphan = TRUE]
+  /\ IF th[t].panicking
+     THEN /\ aborted' = TRUE /\ th' = [th EXCEPT ![t].pc = "dead", ![t].panics = @ + 1]
+     ELSE /\ aborted' = aborted /\ th' = [th EXCEPT ![t].panicking = TRUE, ![t].panics = @ + 1, ![t].dropfail = TRUE]
+  /\ UNCHANGED <<lock, poisoned, inj, cur, code, orig, rw, dirty, ctr, fault, inflight>>
+
 FlushRestore(t, i) ==
   /\ DropReady(t) /\ i \in dropst[t].restored
   /\ \E k \in 1..Guards(t)[i].size : EntryLoc(Guards(t)[i].f, k) \in dirty
@@ -428,8 +443,9 @@ Verify(t) ==
 
 Unlock(t) ==
   /\ th[t].pc = "verify" /\ Verifiers(t) = <<>>
-  /\ IF lock = t THEN lock' = Free /\ poisoned' = (poisoned \/ th[t].panicking)
-                 ELSE UNCHANGED <<lock, poisoned>>
+  /\ IF lock = t /\ ~(LockByHand /\ th[t].dropfail)
+     THEN lock' = Free /\ poisoned' = (poisoned \/ th[t].panicking)
+     ELSE UNCHANGED <<lock, poisoned>>
   /\ th' = [th EXCEPT ![t].pc = "idle", ![t].kind = "none", ![t].lives = @ + 1]
   \* bookkeeping only: ids of mappings that were given back may name new mappings later
   /\ tramp' = [id \in TrampIds |-> IF tramp[id].state = "freed" /\ tramp[id].frees = 1
@@ -496,7 +512,7 @@ Next ==
        \/ WriteEntry(t) \/ FlushEntryStep(t) \/ PushGuard(t) \/ InstallEnd(t)
        \/ \E f \in Funcs, m \in MatchVals : Call(t, f, m) \/ CallPanics(t, f, m)
        \/ DropBegin(t) \/ EarlyUnlock(t)
-       \/ \E i \in 1..MaxTramps : Restore(t, i) \/ FlushRestore(t, i) \/ Unmap(t, i)
+       \/ \E i \in 1..MaxTramps : Restore(t, i) \/ FlushRestore(t, i) \/ Unmap(t, i) \/ RestoreFails(t, i)
        \/ GuardsDone(t) \/ Verify(t) \/ Unlock(t)
        \/ Abandon(t) \/ NestedBegin(t) \/ OtherExec(t)
        \/ \E f \in Funcs : OtherEnter(t, f)
